@@ -105,6 +105,29 @@ CLAIMS = {
              "values produced by user callables are typed by inference at the site (truthful by construction).",
         technique="construction-site provenance typing (reaching definitions) + finite abstract interpretation of the assignment/validation code",
         design="2/C03"),
+    "C02": dict(
+        text="Decides that every site which can break 'all columns have len == table._length' preserves it: the store of the "
+             "column tuple at construction is dominated by a raising guard over ALL incoming columns; every column "
+             "replacement and the dict form of >> are dominated by a raising len(value) != self._length guard (conjoined at "
+             "most with 'has columns'); _length is stored only at construction and returned by __len__; in-place writes "
+             "assign single positions of list(old storage) and promotion rebuilds from all elements; row selections map one "
+             "key over all columns; Row snapshots the table's current column tuples unfiltered and every accessor indexes "
+             "them with the row index; >>, <<, .T have the expected shape. Cell equality as values is not decided.",
+        note="A structural necessary condition is decided, not the run-time values.",
+        technique="CFG dominance of raising guards + who-may-store + typestate of the work list + shape matchers",
+        design="2/C02"),
+    "C07": dict(
+        text="Comparison kernels (8 construction sites incl. the date-specific ones) build constant non-nullable bool vectors "
+             "from `False if <operand is None> else bool(op(x, y))` paired by zip(self, other, strict=True) in written order, "
+             "all 12 dunders dispatch the operator of their name; v[int] and v[slice] delegate to tuple indexing and nothing "
+             "on the way to the constructor selects by truth value (R-FALSY on None-default data parameters); masks keep the "
+             "element where the mask element is true after a length guard; index lists gather in key order; every raise of "
+             "the indexing code is reachable and every FEASIBLE path (flag-sensitive) through one iteration of the multi-name "
+             "loop appends or raises; row selections map the same key over all columns; by-name lookup is exact-name-first.",
+        note="Slice arithmetic (typeutils.slice_length) is numeric and not decided; value equality with list slicing is "
+             "delegated to tuple.__getitem__.",
+        technique="construction-site matchers + CFG reachability + flag-sensitive must-pass-through + R-FALSY lint",
+        design="2/C07"),
 }
 
 PENDING = "static rules for this property are designed (DESIGN.md section 2) but not yet built in this round; not claimed yet"
